@@ -28,7 +28,7 @@ def run(R):
     for i, (variant, env) in enumerate(CFGS):
         exe = R.cc("forge_driver", ["forge_driver.c"], variant)
         tp = R.path("forge", "f%d.ndjson" % i)
-        R.run([exe, str(R.seed + i), "full" if (thorough and i == 0) else "quick", tp], env=env, ok_codes=(0, 70), timeout=3000)
+        R.run([exe, str(R.seed + i), "full" if thorough else "quick", tp], env=env, ok_codes=(0, 70), timeout=3000)
         traces.append((tp, variant, env))
     res = R.tlc_shards("sys/TraceForgery.tla", "TraceForgery.cfg", [{"TRACE": t[0]} for t in traces], timeout=1800)
     trials = 0
